@@ -201,16 +201,24 @@ def run_case(ctx, case):
                 continue
             step = {'field': name, 'kind': kind, 'constraint': common.jsafe(value), 'row_value': common.jsafe(bv)}
             rec.case({'spec': spec, 'rex': case['rex'], 'step': step}, nontrivial=True, cls=[('step=' + kind,)])
+            pk = spec.get('primary_key') or []
+            if bv is None and pk == [name] and col['sqltype'].lower() == 'integer':
+                rec.note('a NULL in an INTEGER PRIMARY KEY column is replaced by SQLite itself')
+                continue
             try:
                 row = [bv if n == name else None for n in names]
+                for j_, n_ in enumerate(names):
+                    if n_ in pk and n_ != name:
+                        # the other member(s) of the key: a fresh id, or a value already there - the PAIR stays unique
+                        row[j_] = 10 ** 6 + len(sql) if n_ == 'pkid' else next((T.sql_value(cols[n_], v_) for v_ in cols[n_]['values'] if v_ is not None), None)
                 if ins is not None:
                     # another process's view: the row is committed to the named file through a connection of its own
-                    ins.execute('INSERT INTO %s VALUES (%s)' % (spec['table'], ', '.join('?' * len(row))), row)
+                    cur_ = ins.execute('INSERT INTO %s VALUES (%s)' % (spec['table'], ', '.join('?' * len(row))), row)
                     ins.commit()
                     try:
                         v2 = verify()
                     finally:
-                        ins.execute('DELETE FROM %s WHERE rowid = (SELECT max(rowid) FROM %s)' % (spec['table'], spec['table']))
+                        ins.execute('DELETE FROM %s WHERE rowid = ?' % spec['table'], (cur_.lastrowid,))
                         ins.commit()
                     got = verdicts(v2).get((name, kind), 'absent')
                 else:
@@ -221,7 +229,11 @@ def run_case(ctx, case):
                     conn.execute('ROLLBACK TO vt')
                     conn.execute('RELEASE vt')
             except Exception as e:
-                raised(e, step)
+                import sqlite3 as _sq
+                if isinstance(e, _sq.IntegrityError):
+                    rec.note('the database itself refuses the perturbing row (key constraint)')     # nothing for tdda to notice
+                else:
+                    raised(e, step)
                 try:
                     conn.execute('ROLLBACK TO vt')
                     conn.execute('RELEASE vt')
@@ -269,7 +281,7 @@ def run_shard(ctx):
         ctx.rec.event('tables:big')
     types = sorted(T.SQLTYPES)
     for i in range(ctx.params['cases']):
-        spec = T.gen_table(rng)
+        spec = T.gen_table(rng, allow_pk=True)
         if i < len(types) and ctx.shard % 4 == 0:
             # directed: each SQL type once with data, so every perturbation kind is reachable
             spec = T.gen_table(rng, ncols=2, nrows=rng.choice([5, 21]))
